@@ -25,6 +25,8 @@ def _index():
             meta = os.path.join(sd, n, "meta.json")
             if os.path.exists(meta) and os.path.exists(os.path.join(sd, n, "patch.diff")):
                 m = json.load(open(meta))
+                if m.get("neutralised_by"):
+                    continue  # a later repository fix closed this change's trigger: its own demonstration passes now
                 idx["seeded/%s/patch.diff" % n] = {"props": m.get("caught_by") or [m["property"]], "note": m.get("needs", "")}
     return idx
 
